@@ -4,6 +4,11 @@ import CkptVerif.Model.Revolve
 import CkptVerif.Spec.Configs
 import CkptVerif.Model.ActionApi
 import CkptVerif.Model.Planners
+import CkptVerif.Model.MixedIter
+import CkptVerif.Model.MultistageIter
+import CkptVerif.Model.TwoLevelIter
+import CkptVerif.Model.BasicIter
+import CkptVerif.Model.Ops
 /-!
 # Line-protocol driver over the executable model and the spec monitor
 
@@ -265,6 +270,55 @@ def kernel : List String → List String
     | _, _ => ["?"]
   | _ => ["?"]
 
+/-- the literal twins of the Python generators (iterative loops / operation sequences):
+events from `EndForward` on for the online classes, the whole stream for the offline ones -/
+def twinEvs (T : Tabs) (k : Nat) (N : Nat) : List String → Option (Except Err (List Ev))
+  | ["SM"] => some (singleMemoryIter N k (singleMemoryIterFuel k))
+  | ["SD", mv] => do
+    let mv ← s2b mv
+    pure (singleDiskIter mv N k (singleDiskIterFuel N k))
+  | ["NO"] => some (noneIter N)
+  | ["TL", p, b, st, traj] => do
+    let p ← p.toNat?; let b ← b.toNat?; let st ← parseSt st; let traj ← parseTraj traj
+    pure (match twoLevelIterPass N p b st traj (twoLevelIterFuel N) with
+      | .error e => .error e
+      | .ok pass => .ok ((List.replicate k pass).flatten))
+  | ["MS", n, ram, disk, traj] => do
+    let n ← n.toNat?; let ram ← ram.toNat?; let disk ← disk.toNat?; let traj ← parseTraj traj
+    pure (multistageIterEvs n ram disk traj)
+  | ["MX", n, s, st, numba] => do
+    let n ← n.toNat?; let s ← s.toNat?; let st ← parseSt st; let numba ← s2b numba
+    pure (mixedIterEvs (if numba then tabPlanner T else memoPlanner T) n s st)
+  | "RV" :: n :: cm :: costs => do
+    let n ← n.toNat?; let cm ← cm.toNat?; let c ← parseCosts costs
+    pure (Ops.revolveTwin n cm c)
+  | "DR" :: n :: cm :: costs => do
+    let n ← n.toNat?; let cm ← cm.toNat?; let c ← parseCosts costs
+    pure (Ops.diskRevolveTwin n cm c)
+  | "PD" :: n :: cm :: costs => do
+    let n ← n.toNat?; let cm ← cm.toNat?; let c ← parseCosts costs
+    pure (Ops.periodicTwin n cm c)
+  | "HR" :: n :: c0 :: c1 :: costs => do
+    let n ← n.toNat?; let c0 ← c0.toNat?; let c1 ← c1.toNat?; let c ← parseCosts costs
+    pure (Ops.hrevolveTwin n c0 c1 c)
+  | _ => none
+
+/-- the operation sequence of the Revolve family, printed like Python's `repr(list(sequence))` -/
+def opsOf : List String → Option (Option (List Ops.Op))
+  | "RV" :: n :: cm :: costs => do
+    let n ← n.toNat?; let cm ← cm.toNat?; let c ← parseCosts costs
+    pure (Ops.revolveOpsTop n cm c)
+  | "DR" :: n :: cm :: costs => do
+    let n ← n.toNat?; let cm ← cm.toNat?; let c ← parseCosts costs
+    pure (Ops.diskRevolveOpsTop n cm c)
+  | "PD" :: n :: cm :: costs => do
+    let n ← n.toNat?; let cm ← cm.toNat?; let c ← parseCosts costs
+    pure (Ops.periodicOpsTop n cm c)
+  | "HR" :: n :: c0 :: c1 :: costs => do
+    let n ← n.toNat?; let c0 ← c0.toNat?; let c1 ← c1.toNat?; let c ← parseCosts costs
+    pure (Ops.hrevolveOpsTop n c0 c1 c)
+  | _ => none
+
 partial def readTrace (h : IO.FS.Stream) (acc : Array Line) : IO (Array Line) := do
   let line ← h.getLine
   if line.isEmpty then return acc
@@ -305,6 +359,20 @@ partial def loop (h : IO.FS.Stream) (out : IO.FS.Stream) (T : Tabs) : IO Unit :=
       match cs.sched with
       | .error e => out.putStrLn ("X " ++ errStage e)
       | .ok s => for l in runHist s ops do out.putStrLn l
+    | none => out.putStrLn "?"
+  | "twin" :: rest =>
+    let (cw, nums) := splitAt rest
+    match nums.map String.toNat? with
+    | [some Nfin, some k] =>
+      match twinEvs T k Nfin cw with
+      | some (.ok evs) => for e in evs do out.putStrLn s!"E {ppAct e.act} | {e.n} {e.r}"
+      | some (.error e) => out.putStrLn ("X " ++ errStage e)
+      | none => out.putStrLn "?"
+    | _ => out.putStrLn "?"
+  | "ops" :: rest =>
+    match opsOf rest with
+    | some (some ops) => out.putStrLn (Ops.ppOps ops)
+    | some none => out.putStrLn "raise"
     | none => out.putStrLn "?"
   | "valid" :: rest =>
     match parseClass T rest with
